@@ -6,6 +6,19 @@ history, a probe battery is run on the warmed converter (I).
 Oracle P (implementation only): a FRESH converter that replays just the registrations made so far gives the
 same result on every probe.
 Model M: the same full history (warm-ups and probe batteries included) through RUNHIST on the cached machine.
+
+The fresh converter runs each battery in the REVERSE order of the warmed one (a probe that decides a later probe's
+answer -- state written by a cache-filling call -- then shows on one of the two).  The universe holds pairs of types that
+share an origin but not a built-in default (`tuple[A, P]` / `tuple[A, ...]`), warmed in both orders.
+Options are not state: after every case the option attributes of the converter (`dispatch_common.OPTION_ATTRS`:
+`_unstruct_collection_overrides`, `type_overrides`, the flags, the strategy) must be what they were at construction
+("behaviour is a function of construction options and registration history alone").
+
+Derived-state stream (implementation only, `derived_stream`; outside the Lean Dispatch model, whose hooks carry no
+attributes): registrations whose effect on OTHER types goes through state derived from hooks -- the default union
+disambiguator reads the `overrides` of the structure hooks registered for the member classes (`create_default_dis_func(...,
+overrides="from_converter")`), so a member-class hook with a renamed field, registered through any path after the union
+(top level, as a field, inside a collection) was used, must re-key the union exactly as on a fresh converter.
 """
 import itertools
 import json
@@ -13,9 +26,21 @@ import json
 from harness import framework, lean
 from harness import dispatch_common as dc
 from harness.dispatch_common import DIRS, ST, UN, ConvCfg, Impl, U
-from harness.props.c07 import gen_cfg
+from harness.dispatch_derived import derived_replay, derived_stream
+from harness.props.c07 import gen_cfg as _gen_cfg07
+from harness.props.c18 import COLL_CHOICES, TYO_CHOICES
 
 REG = ("hook", "func", "factory")
+
+
+def gen_cfg(rng):
+    """C07's configurations, plus non-empty option dictionaries (they must come out of every history unchanged)"""
+    cc = _gen_cfg07(rng)
+    if cc.klass == "Converter" and rng.random() < 0.3:
+        cc.extra["unstruct_collection_overrides"] = rng.choice(COLL_CHOICES[1:])
+    if cc.klass == "Converter" and rng.random() < 0.2:
+        cc.extra["type_overrides"] = rng.choice(TYO_CHOICES[1:])
+    return cc
 
 
 def build_history(rng, cc, preds, n_ops, p_warm=0.55):
@@ -59,7 +84,10 @@ def run_case(drv, cc, preds, history, full, prefix_of):
     # oracle: fresh converters replaying only the registrations before each battery
     res_p = {}
     fresh_cache = {}
-    for n in sorted(prefix_of):
+    # each probe on the fresh converter also warms it (a new fresh converter per cut point, no registration follows);
+    # it runs the battery in the reverse order of the warmed converter, so that a probe whose answer depends on which
+    # probe came before it differs on one of the two
+    for n in sorted(prefix_of, reverse=True):
         c = prefix_of[n]
         if c not in fresh_cache:
             f = Impl(preds)
@@ -68,8 +96,6 @@ def run_case(drv, cc, preds, history, full, prefix_of):
                 if op["op"] in REG:
                     f.do(op)
             fresh_cache[c] = f
-        # each probe on the fresh converter also warms it; that is fine for an oracle of "fresh + registrations only"
-        # as long as no registration follows: a new fresh converter per cut point
         res_p[n] = fresh_cache[c].do(full[n])
     res_m = {}
     for d in DIRS:
@@ -81,6 +107,9 @@ def run_case(drv, cc, preds, history, full, prefix_of):
     dc.prune_linecache()
     if impl.reg_errors:
         res_i["regerr"] = impl.reg_errors[0]
+    written = impl.options_written() + [w for f in fresh_cache.values() for w in f.options_written()]
+    if written:
+        res_i["options_written"] = written[0]
     return res_i, res_p, res_m
 
 
@@ -90,6 +119,11 @@ def check_case(chk, drv, cc, preds, history, full, prefix_of, corr_fail, stats):
     res_i, res_p, res_m = run_case(drv, cc, preds, history, full, prefix_of)
     if "regerr" in res_i:
         chk.violation("C08 oracle: a registration raised: " + res_i["regerr"], case)
+        stats["oracle_fail"] += 1
+    if "options_written" in res_i:
+        chk.violation("C08 oracle: using the converter wrote one of its construction options (behaviour must be a function of "
+                      f"options and registrations alone): {res_i['options_written']} [{cc.name()} "
+                      f"{' ; '.join(dc.describe(o) for o in history)}]", case)
         stats["oracle_fail"] += 1
     n_warm = sum(1 for op in history if op["op"] not in REG)
     n_reg = len(history) - n_warm
@@ -131,7 +165,8 @@ def run(chk: framework.Check):
     battery = None  # all probe types
     # ---- exhaustive: warm W / reg R sequences over a small alphabet, every placement of the warm-ups
     alpha_preds = {1: ({U.k("A"), U.k("B"), U.k("NA"), U.k("UAP"), U.k("list[A]"), U.k("int")}, set())}
-    small_battery = ["A", "B", "NA", "UAP", "OA", "W", "list[OA]", "list[A]", "list[B]", "list[NA]", "dict[str,B]", "tuple[A,P]", "int"]
+    small_battery = ["A", "B", "NA", "UAP", "OA", "W", "list[OA]", "list[A]", "list[B]", "list[NA]", "dict[str,B]", "tuple[A,P]",
+                     "tuple[A,...]", "int"]
     for klass in ("Converter", "BaseConverter"):
         cc = ConvCfg(klass=klass)
         for d in DIRS:
@@ -151,6 +186,8 @@ def run(chk: framework.Check):
                 {"op": "get", "conv": 0, "dir": d, "ty": U.k("dict[str,B]"), "cached": True, "apply": False},
                 {"op": "get", "conv": 0, "dir": d, "ty": U.k("UAP"), "cached": False, "apply": True},
                 {"op": "call", "conv": 0, "dir": d, "ty": U.k("tuple[A,P]")},
+                {"op": "call", "conv": 0, "dir": d, "ty": U.k("tuple[A,...]")},
+                {"op": "get", "conv": 0, "dir": d, "ty": U.k("tuple[A,...]"), "cached": True, "apply": False},
             ]
             L = 2 if quick else 3
             for combo in itertools.product(regs, repeat=L):
@@ -178,12 +215,15 @@ def run(chk: framework.Check):
                          "unstructure, get_*_hook cached/uncached, on class and composite types); probe batteries at cut points and "
                          "at the end compared with a fresh converter replaying only the registrations; non-trivial = at least one "
                          "warm-up and one registration; distinct by configuration+history text")
+    derived_stream(chk, 400 if quick else 4000)
     chk.extra["probes"] = stats["probes"]
     chk.extra["correspondence_disagreements"] = len(corr_fail)
     drv.close()
 
 
 def replay(case):
+    if case.get("ext") == "derived":
+        return derived_replay(case)
     drv = lean.Driver()
     cc = ConvCfg.from_json(case["cfg"])
     preds = dc.preds_from_json(case["preds"])
@@ -191,7 +231,8 @@ def replay(case):
     prefix_of = {int(k): v for k, v in case["prefix_of"].items()}
     print("configuration:", cc.name())
     for p, (a, r) in preds.items():
-        print(f"  predicate p{p}: accepts {[U.types[k].name for k in sorted(a)]} raises on {[U.types[k].name for k in sorted(r)]}")
+        print(f"  predicate p{p}: accepts {[U.types[k].name for k in sorted(a)]} raises "
+              f"{[(U.types[k].name, dc.pred_exception(p, k).__name__) for k in sorted(r)]}")
     for op in history:
         print("  ", dc.describe(op))
     res_i, res_p, res_m = run_case(drv, cc, preds, history, full, prefix_of)
